@@ -69,7 +69,7 @@ func judgeOutboxPost(r *verdict.Run, sc *sim.Scenario, res *sim.Result, ri int, 
 	evs := res.Log[rp.FirstEvent:rp.LastEvent]
 	box := rq.URL
 	// locate events
-	var firstBatch, setOutboxIdx, actCreateIdx, firstInjectedDB = -1, -1, -1, -1
+	var firstBatch, setOutboxIdx, lastSetOutboxIdx, actCreateIdx, firstInjectedDB = -1, -1, -1, -1, -1
 	var issued []string
 	setOutboxCount := 0
 	for i, e := range evs {
@@ -84,13 +84,16 @@ func judgeOutboxPost(r *verdict.Run, sc *sim.Scenario, res *sim.Result, ri int, 
 				if setOutboxIdx < 0 {
 					setOutboxIdx = i
 				}
+				lastSetOutboxIdx = i
 			}
 		case "tp.BatchDeliver", "tp.Deliver":
 			if firstBatch < 0 {
 				firstBatch = i
 			}
 		}
-		if e.Injected && e.Class() == "db" && firstInjectedDB < 0 {
+		// a persistence step: any Database call up to and including the
+		// outbox update (later lookups belong to the delivery itself)
+		if e.Injected && e.Class() == "db" && firstInjectedDB < 0 && setOutboxIdx < 0 {
 			firstInjectedDB = i
 		}
 	}
@@ -98,7 +101,18 @@ func judgeOutboxPost(r *verdict.Run, sc *sim.Scenario, res *sim.Result, ri int, 
 	if rq.Kind == "PostOutbox" {
 		ok = ok && len(rp.Statuses) == 1 && rp.Statuses[0] == 201
 	}
-	if len(issued) > 0 {
+	// the activity's id is the issued id that the outbox update put in front
+	// (which of the NewID calls produced it is the library's business)
+	if lastSetOutboxIdx >= 0 {
+		if pv, ok := parseJSON(evs[lastSetOutboxIdx].Payload); ok {
+			if pm, _ := pv.(map[string]interface{}); pm != nil {
+				if items := idsOf(pm["orderedItems"]); len(items) > 0 && contains(issued, items[0]) {
+					newID = items[0]
+				}
+			}
+		}
+	}
+	if newID == "" && len(issued) > 0 {
 		newID = issued[0]
 	}
 	for i, e := range evs {
@@ -125,11 +139,10 @@ func judgeOutboxPost(r *verdict.Run, sc *sim.Scenario, res *sim.Result, ri int, 
 		}
 	}
 	typ, _ := body["type"].(string)
-	if typ != "Undo" && typ != "Accept" {
-		for i, e := range evs {
-			if e.Kind == "tp.Dereference" && (setOutboxIdx < 0 || i < setOutboxIdx) && typ != "Create" {
-				viol("dereference-before-stored", e.Site, "dereference before outbox update", fmt.Sprintf("Dereference(%s) precedes the outbox update", e.Args[0]))
-			}
+	// (a Dereference before the outbox update is not a delivery: counted only)
+	for i, e := range evs {
+		if e.Kind == "tp.Dereference" && (setOutboxIdx < 0 || i < setOutboxIdx) {
+			r.Count("dereferences_before_outbox_update."+typ, 1)
 		}
 	}
 	if !ok {
@@ -146,8 +159,35 @@ func judgeOutboxPost(r *verdict.Run, sc *sim.Scenario, res *sim.Result, ri int, 
 	if rq.Kind == "Send" && rp.SendID != newID {
 		viol("send-id-mismatch", "pub.(*baseActorFederating).Send", "returned activity id", fmt.Sprintf("Send returned %q, issued %q", rp.SendID, newID))
 	}
-	if setOutboxCount != 1 {
-		viol("outbox-update-count", "pub.(*sideEffectActor).addToOutbox", "SetOutbox count", fmt.Sprintf("%d SetOutbox calls in one accepted post", setOutboxCount))
+	_ = setOutboxCount
+	if lastSetOutboxIdx >= 0 {
+		// front of the outbox, exactly once (judged on what was written)
+		pv, _ := parseJSON(evs[lastSetOutboxIdx].Payload)
+		pm, _ := pv.(map[string]interface{})
+		items := idsOf(pm["orderedItems"])
+		cnt := 0
+		for _, it := range items {
+			if it == newID {
+				cnt++
+			}
+		}
+		if cnt != 1 || len(items) == 0 || items[0] != newID {
+			viol("outbox-update-count", "pub.(*sideEffectActor).addToOutbox", "id in outbox", fmt.Sprintf("the outbox written lists %v: the new id %s must be there once, in front", items, newID))
+		}
+	} else {
+		viol("outbox-update-count", "pub.(*sideEffectActor).addToOutbox", "id in outbox", "accepted post without an outbox update")
+	}
+	// what is delivered is the activity that was identified and stored
+	for _, e := range evs {
+		if e.Kind == "tp.BatchDeliver" || e.Kind == "tp.Deliver" {
+			if pv, ok := parseJSON(e.Payload); ok {
+				if pm, _ := pv.(map[string]interface{}); pm != nil {
+					if pid, _ := pm["id"].(string); pid != newID {
+						viol("delivered-payload-id", e.Site, "payload id", fmt.Sprintf("the payload delivered has id %q, the stored activity %q", pid, newID))
+					}
+				}
+			}
+		}
 	}
 	if actCreateIdx < 0 {
 		viol("activity-not-stored", "pub.(*sideEffectActor).addToOutbox", "no Create of the activity", "accepted post whose activity was never stored under its new id")
@@ -182,6 +222,8 @@ func judgeOutboxPost(r *verdict.Run, sc *sim.Scenario, res *sim.Result, ri int, 
 		}
 		if got := idsOf(sm["actor"]); !contains(got, owner) {
 			viol("wrap-actor", "pub.wrapInCreate", "actor", fmt.Sprintf("wrapping Create actor=%v want the outbox owner %s", got, owner))
+		} else if !subset(setOf(got), union(setOf([]string{owner}), setOf(idsOf(body["attributedTo"])))) {
+			viol("wrap-actor", "pub.wrapInCreate", "actor: others", fmt.Sprintf("wrapping Create actor=%v: only the outbox owner %s (and, with Social, the object's attributedTo) belong there", got, owner))
 		}
 		for _, p := range addrProps {
 			// after stripping the stored activity still has bto/bcc (stored before delivery)
@@ -232,6 +274,20 @@ func judgeOutboxPost(r *verdict.Run, sc *sim.Scenario, res *sim.Result, ri int, 
 				if !found {
 					viol("object-not-stored", "pub.SocialWrappedCallbacks.create", "Create object", fmt.Sprintf("object %q was not stored", oid))
 				}
+				// stored as it stands in the stored Create (normalised)
+				for _, e := range evs {
+					if e.Kind == "db.Create" && !e.Injected && len(e.Args) > 0 && e.Args[0] == oid {
+						sv, _ := parseJSON(e.Payload)
+						if svm, _ := sv.(map[string]interface{}); svm != nil {
+							delete(svm, "@context")
+							var want interface{}
+							mustRoundTrip(stripCtx(M(om)), &want)
+							if !looseEqual(want, svm, false) {
+								viol("object-not-stored", "pub.SocialWrappedCallbacks.create", "Create object content", fmt.Sprintf("object %q stored as %s, the stored Create holds %s", oid, jstr(svm), jstr(want)))
+							}
+						}
+					}
+				}
 			}
 		}
 		if social && len(sc.Cfg.SocOther) == 0 {
@@ -254,6 +310,9 @@ func judgeOutboxPost(r *verdict.Run, sc *sim.Scenario, res *sim.Result, ri int, 
 				objsOrig = []M{body}
 			}
 			_, hasActor := actOrig["actor"]
+			if len(objsOrig) != len(objs) && len(objsOrig) == len(asList(actOrig["object"])) && isActivity {
+				viol("create-object-count", "pub.SocialWrappedCallbacks.create", "object count", fmt.Sprintf("the stored Create holds %d objects, the posted one %d", len(objs), len(objsOrig)))
+			}
 			if len(objsOrig) == len(objs) {
 				r.Count("create_normalisations_judged", 1)
 				for _, p := range addrProps {
@@ -285,10 +344,15 @@ func judgeOutboxPost(r *verdict.Run, sc *sim.Scenario, res *sim.Result, ri int, 
 						if !subset(actActors, got) {
 							viol("create-attribution", "pub.SocialWrappedCallbacks.create", "attributedTo", fmt.Sprintf("object %d attributedTo=%v lacks the activity's actors %v", i, keys(got), keys(actActors)))
 						}
+						if isActivity && !subset(got, union(actActors, setOf(idsOf(objsOrig[i]["attributedTo"])))) {
+							viol("create-attribution", "pub.SocialWrappedCallbacks.create", "attributedTo: others", fmt.Sprintf("object %d attributedTo=%v holds more than its own %v and the activity's actors %v", i, keys(got), idsOf(objsOrig[i]["attributedTo"]), keys(actActors)))
+						}
 						allAttr = union(allAttr, setOf(idsOf(objsOrig[i]["attributedTo"])))
 					}
 					if got := setOf(idsOf(sm["actor"])); !subset(allAttr, got) {
 						viol("create-attribution", "pub.SocialWrappedCallbacks.create", "actor", fmt.Sprintf("activity actor=%v lacks attributedTo entries %v", keys(got), keys(allAttr)))
+					} else if isActivity && !subset(got, union(actActors, allAttr)) {
+						viol("create-attribution", "pub.SocialWrappedCallbacks.create", "actor: others", fmt.Sprintf("activity actor=%v holds more than its own %v and the objects' attributedTo %v", keys(got), keys(actActors), keys(allAttr)))
 					}
 				}
 			}
@@ -298,7 +362,7 @@ func judgeOutboxPost(r *verdict.Run, sc *sim.Scenario, res *sim.Result, ri int, 
 		for _, o := range asList(sm["object"]) {
 			if om, ok := o.(map[string]interface{}); ok {
 				if oid, _ := om["id"].(string); contains(issued, oid) && oid != "" {
-					viol("object-id-reissued", "pub.(*sideEffectActor).AddNewIDs", "non-Create object id", "an embedded object of a non-Create activity received a fresh id")
+					r.Count("non_create_objects_given_fresh_ids", 1) // the statement does not forbid it
 				}
 			}
 		}
@@ -310,7 +374,7 @@ func init() {
 	checks["c05"] = func(id string) int {
 		r := newRun(id, "fault_enumeration")
 		r.Rule = "client POSTs and Sends of bare objects of every non-activity type, Creates with 1..3 embedded objects and overlapping recipient/attribution sets, and every other activity type; sequences of 1..8 posts to one and to two outboxes; every single-fault variant of a subset; the event log is judged for identify->store->outbox->deliver ordering and the stored values by a set-algebra model of wrapping and Create normalisation; non-trivial = accepted post; distinct by scenario and fault plan"
-		r.Assumptions = []string{"a Create without an actor property is judged for ordering only", "Dereference before the outbox update is tolerated for Undo/Accept/Create whose default side effects legitimately fetch", "recipient sets are compared as sets of ids"}
+		r.Assumptions = []string{"a Create without an actor property is judged for ordering only", "recipient sets are compared as sets of ids"}
 		mkViol := func(sc *sim.Scenario, res *sim.Result) func(rule, site, feature, msg string) {
 			return func(rule, site, feature, msg string) {
 				r.Violate(verdict.Sig{Rule: "C05." + rule, Site: site, Feature: feature}, witness{Scenario: sc},
@@ -328,7 +392,7 @@ func init() {
 			for k, v := range before {
 				want[k] = append([]string{}, v...)
 			}
-			anyAccepted := false
+			anyAccepted, allAccepted := false, true
 			for i, rq := range sc.Requests {
 				if rq.Kind != "PostOutbox" && rq.Kind != "Send" {
 					continue
@@ -338,9 +402,13 @@ func init() {
 					anyAccepted = true
 					want[rq.URL] = append([]string{nid}, want[rq.URL]...)
 					r.Count("accepted_posts", 1)
+				} else {
+					allAccepted = false
 				}
 			}
-			if len(sc.FailAt) == 0 {
+			// "after any sequence of accepted posts": a post that was not
+			// accepted (its delivery failed, say) is outside that sentence
+			if len(sc.FailAt) == 0 && allAccepted {
 				for box, w := range want {
 					got := outboxItems(res.After, box)
 					if !reflect.DeepEqual(got, w) && !(len(got) == 0 && len(w) == 0) {
@@ -386,6 +454,29 @@ func init() {
 					})
 				} else {
 					judgeAll(cs.Sc, sim.Run(cs.Sc))
+				}
+			})
+		}
+		// every posted type under every single fault: the first generated
+		// case of each activity type (the random prefix above need not hold
+		// every one of them)
+		for ti, typ := range activityTypes {
+			ti, typ := ti, typ
+			jobs = append(jobs, func() {
+				for j := 0; j < 4000; j++ {
+					g := prng.New(r.SeedV, "c05.bytype", ti*4000+j)
+					cs := genOutboxCase(g, []string{"post", "send"}, []string{"both", "both", "federating"})
+					b, _ := cs.Sc.Requests[0].Body.(M)
+					if b == nil || b["type"] != typ {
+						continue
+					}
+					cs.Sc.Name = fmt.Sprintf("outbox-post-%s", typ)
+					faultSweep(cs.Sc, false, func(sc *sim.Scenario, res *sim.Result) {
+						r.Count("fault_variant_runs", 1)
+						judgeAll(sc, res)
+					})
+					r.Count("types_swept", 1)
+					return
 				}
 			})
 		}
@@ -448,9 +539,21 @@ func init() {
 				}
 				if g.Chance(1, 3) {
 					sc.Outboxes = map[string][]interface{}{aliceOut(): {L + "/act/old2", L + "/act/old1"}}
+					if g.Bool() {
+						sc.Outboxes[bob()+"/outbox"] = []interface{}{M{"type": "Create", "id": L + "/act/bob-old"}, L + "/act/old1"}
+					}
 				}
 				sc.Name = fmt.Sprintf("outbox-sequence#%d", i)
 				r.Count("sequence_posts", k)
+				if i < nfault/8 {
+					// faults inside a sequence: the later posts meet an
+					// outbox that already lists the earlier ones
+					faultSweep(sc, false, func(sc *sim.Scenario, res *sim.Result) {
+						r.Count("fault_variant_runs", 1)
+						judgeAll(sc, res)
+					})
+					return
+				}
 				judgeAll(sc, sim.Run(sc))
 			})
 		}
